@@ -24,6 +24,7 @@ class Network:
         self.fault = None  # callable(address, frames) -> list of frames-lists to enqueue now
         self.sent_log: list = []
         self.on_poll = None  # callable(address) invoked when a poll finds nothing (lets a harness advance the world)
+        self.req_handler = None  # callable(address, request bytes) -> response bytes, for REQ sockets
 
     def q(self, address: str) -> deque:
         if address not in self.queues:
@@ -61,12 +62,18 @@ class Socket:
         NET.q(address)
 
     def send(self, b, *a, **k):
+        if self.kind == REQ and NET.req_handler is not None:
+            self._resp = NET.req_handler(self.address, bytes(b))  # the peer answers synchronously
+            return
         NET.deliver(self.address, [bytes(b)])
 
     def send_multipart(self, frames, *a, **k):
         NET.deliver(self.address, [bytes(f) for f in frames])
 
     def recv(self, *a, **k):
+        if self.kind == REQ and getattr(self, "_resp", None) is not None:
+            r, self._resp = self._resp, None
+            return r
         return self.recv_multipart()[0]
 
     def recv_multipart(self, *a, **k):
@@ -76,6 +83,8 @@ class Socket:
         return list(q.popleft())
 
     def poll(self, timeout=None, flags=POLLIN):
+        if self.kind == REQ:
+            return POLLIN if getattr(self, "_resp", None) is not None else 0
         return POLLIN if NET.q(self.address) else 0
 
     def close(self, *a, **k):
